@@ -68,4 +68,47 @@ theorem C10_reap (x : Exec) (inactive : WorkId → Bool) (sd : WorkId → Shutdo
   rw [hw]
   simp [List.mem_filter, hin]
 
+theorem eq_nil_of_aget_none {ν : Type} (l : List (Int × ν)) (h : ∀ k, aget l k = none) : l = [] := by
+  cases l with
+  | nil => rfl
+  | cons e r =>
+    obtain ⟨k, v⟩ := e
+    have := h k
+    simp [aget_cons] at this
+
+/-- **C10 return to start.**  In every reachable state — after ANY history of connections, in
+any number, sequential or concurrent, each ending in any way — in which no connection is alive
+any more, the executor's bookkeeping is literally what it was before the first connection was
+accepted: `works`, the registry and the selector map are empty.  Hence repeating any history any
+number of times cannot grow the bookkeeping (each repetition starts from and returns to the empty
+bookkeeping; with other connections alive, `C10_no_residue` says nothing of the finished ones
+remains and `C05_noninterference` that the live ones are unaffected). -/
+theorem C10_return_to_start {x : Exec} (h : Reach x) (hw : x.works = []) :
+    x.registered = [] ∧ x.sk.map = [] := by
+  have hi := C05_reach_inv h
+  have hreg : ∀ w, aget x.registered w = none := by
+    intro w
+    cases hr : aget x.registered w with
+    | none => rfl
+    | some r => have := hi.regWorks w (by rw [hr]; simp); rw [hw] at this; cases this
+  refine ⟨eq_nil_of_aget_none _ hreg, eq_nil_of_aget_none _ ?_⟩
+  intro fd
+  cases hk : aget x.sk.map fd with
+  | none => rfl
+  | some q =>
+    obtain ⟨m, d⟩ := q
+    have := hi.mapReg fd m d (by simp [cell, hk])
+    simp [regOf, hreg d] at this
+
+/-- the footprint of one connection is the same (empty) before it is accepted and after it is
+    cleaned up, whatever happened in between and whatever the other connections do -/
+theorem C10_footprint_before_after {x y : Exec} (hx : Reach x) (hy : Reach y) (f : WorkId)
+    (hbefore : f ∉ x.works) (hafter : f ∉ y.works) : Released x f ∧ Released y f :=
+  ⟨C10_no_residue hx f hbefore, C10_no_residue hy f hafter⟩
+
+/-- non-vacuity: a connection is accepted, registers two descriptors, and its task asks for teardown -/
+example : ∃ y log, runOnce (fresh ⟨[5, 6], []⟩)
+      { beh := fun _ => ⟨.ok [(5, 1)], .tru, [], ⟨[5], true⟩⟩, ready := [], arrive := some ⟨5, false⟩, prio := [] }
+      = .ok (y, log) ∧ y.works = [5] := ⟨_, _, rfl, rfl⟩
+
 end Px.Exec
